@@ -227,10 +227,13 @@ def render(doc):
     y.append("        origin: {x: 0.0, y: 0.0, z: 0.0}")
     y.append("grids:")
     for g in doc["grids"]:
+        bounds = None
+        if g.get("bounds"):  # theta-R-Z: hundredths of a radian / of a cm
+            bounds = {"theta": [[v, LENGTH_UNIT] for v in g["bounds"][0]], "r": [[v, LENGTH_UNIT] for v in g["bounds"][1]]}
         if g["mode"] == "map":
             t = grid_yaml(g["name"], g["geom"], g["dom"], lines=g["text"])
         else:
-            t = grid_yaml(g["name"], g["geom"], g["dom"], cells=[[i, j, '"%s"' % v] for i, j, v in g["cells"]])
+            t = grid_yaml(g["name"], g["geom"], g["dom"], cells=[[i, j, '"%s"' % v] for i, j, v in g["cells"]], bounds=bounds)
         y += ["    " + ln for ln in t.splitlines()]
     return "\n".join(y) + "\n"
 
